@@ -144,6 +144,11 @@ func (e *CEnv) asBool(v Value) *Term {
 }
 
 func (e *CEnv) deref(v Value) Value {
+	if iv, ok := v.(*IfaceVal); ok && iv.Dyn != nil {
+		if _, isPtr := iv.V.(*PtrVal); isPtr {
+			v = iv.V
+		}
+	}
 	if p, ok := v.(*PtrVal); ok {
 		if p.Obj == nil {
 			cfail("dereference of nil pointer in contract")
@@ -851,6 +856,16 @@ func (e *CEnv) call(ex *CExpr) Value {
 	case "isEOF":
 		need(1)
 		return e.x.isEOF(e.st, ev(0))
+	case "nonsentinel":
+		need(1)
+		switch v := ev(0).(type) {
+		case *IfaceVal:
+			if v.Dyn != nil || v.Sym == nil {
+				return TTrue
+			}
+			return Eq(App("errtag", SInt, v.Sym), IntLit(0))
+		}
+		return TTrue
 	case "fresh":
 		need(1)
 		return e.x.isFresh(e.st, e.old, ev(0))
@@ -896,6 +911,13 @@ func (e *CEnv) call(ex *CExpr) Value {
 		// rep(D, w, lo, hi): D array of Bytes
 		need(4)
 		return App("rep", SBytes, ev(0).(*Term), intArg(1), intArg(2), intArg(3))
+	case "cmdval":
+		need(1)
+		iv, ok := ev(0).(*IfaceVal)
+		if !ok || iv.Dyn == nil {
+			cfail("cmdval of a value whose dynamic type is not known")
+		}
+		return e.asInt(iv.V)
 	case "typeIs":
 		// typeIs(x, "pkg.Type") dynamic type test on interface values
 		need(2)
